@@ -83,6 +83,8 @@ def file_records(path):
 
 class C02:
     prop = "C02"
+    state_measure = ("of the simulated multi-process run(s): per queue (pipe length, outstanding count) x per live task (task kind, kind of "
+                     "thing it is blocked on), sampled at every scheduler decision; hashed; distinct values counted")
     level = "fault_enumeration"
     design_ref = "DESIGN.md 3.2"
     tiers = {"quick": {"runs": 144, "budget_s": 85, "chunk": 1, "twice_every": 8, "shrink_s": 60},
